@@ -221,6 +221,11 @@ struct ParentSignals {
   uint64_t blocked = 0;   // bit s-1
   uint64_t ignored = 0;
   uint64_t handled = 0;
+  // SIGCHLD is left alone (the harness and the library both wait for children)
+  // except when the injected fault makes fork itself fail - no child can exist
+  // then: 1 = ignored, 2 = handled with SA_NOCLDWAIT. Only the caller-state
+  // comparison looks at it.
+  int sigchld = 0;
 };
 
 inline ParentSignals gen_parent_signals(fw::Tape &t)
@@ -261,6 +266,28 @@ inline void apply_parent_signals(const ParentSignals &ps)
     }
   }
   pthread_sigmask(SIG_BLOCK, &m, nullptr);
+  if (ps.sigchld) {
+    struct sigaction sa;
+    memset(&sa, 0, sizeof(sa));
+    sigemptyset(&sa.sa_mask);
+    sigaddset(&sa.sa_mask, SIGUSR2);
+    sa.sa_handler = ps.sigchld == 1 ? SIG_IGN : noop_handler;
+    sa.sa_flags = ps.sigchld == 1 ? 0 : (SA_NOCLDWAIT | SA_RESTART);
+    sigaction(SIGCHLD, &sa, nullptr);
+  }
+}
+
+// a start whose only fault makes fork() itself fail never has a child
+inline void maybe_touch_sigchld(fw::Tape &t, ParentSignals &ps, const std::vector<FaultSpec> &faults)
+{
+  if (faults.size() == 1 && faults[0].fn == VS_FORK && faults[0].side == VS_PARENT && faults[0].kind == VS_FK_ERRNO && t.coin()) ps.sigchld = 1 + (int) t.pick(2);
+}
+// ... and that fault is then addressed as "the first fork()", not by its place
+// in the fault-free call sequence (a library may make other calls first when
+// SIGCHLD is not at its default)
+inline void address_fork_by_ordinal(const ParentSignals &ps, std::vector<FaultSpec> &faults)
+{
+  if (ps.sigchld && faults.size() == 1 && faults[0].fn == VS_FORK) faults[0].index = -1;
 }
 
 // ---------------------------------------------------------- observation ----
@@ -610,6 +637,7 @@ inline Obs run(const RunConfig &cfg, const std::string &root)
     _exit(0);
   }
   CallerState after = snapshot_caller();
+  if (cfg.parent_signals.sigchld) signal(SIGCHLD, SIG_DFL);  // the harness waits for children from here on
   o.r = r;
   for (int i = 0; i < vs_sh->nfaults; i++) {
     o.fired.push_back(vs_sh->faults[i].fired != 0);
@@ -1031,6 +1059,8 @@ inline bool decode_sweep(long sweep, fw::Tape &t, RunConfig &cfg, const std::str
       if (fp.side == side && fp.fn == fn && seen++ == ordinal) {
         cfg.faults.push_back(make_fault(fp, choice));
         kind = "single-fault";
+        maybe_touch_sigchld(t, cfg.parent_signals, cfg.faults);
+        address_fork_by_ordinal(cfg.parent_signals, cfg.faults);
         return true;
       }
     }
@@ -1041,6 +1071,8 @@ inline bool decode_sweep(long sweep, fw::Tape &t, RunConfig &cfg, const std::str
     cfg.scenario = e.scenario;
     if (e.point >= 0) cfg.faults.push_back(make_fault(tb.points[(size_t) e.scenario][(size_t) e.point], e.choice));
     kind = e.point < 0 ? "fault-free" : "single-fault";
+    maybe_touch_sigchld(t, cfg.parent_signals, cfg.faults);
+    address_fork_by_ordinal(cfg.parent_signals, cfg.faults);
     return true;
   }
   long k = sweep - (long) tb.singles.size();
@@ -1129,6 +1161,8 @@ inline void decode_random(fw::Tape &t, RunConfig &cfg, std::string &kind)
   static const int limits[] = { 64, 64, 48, 256 };
   cfg.nofile_limit = limits[t.pick(4)];
   kind = nf == 0 ? "fault-free" : nf == 1 ? "single-fault" : "fault-pair";
+  maybe_touch_sigchld(t, cfg.parent_signals, cfg.faults);
+  address_fork_by_ordinal(cfg.parent_signals, cfg.faults);
 }
 
 inline std::string obs_json(const Obs &o)
